@@ -9,6 +9,9 @@ Module G := C12.Gen.
 Lemma gen_pack c : G.adjust_cores_for_packability c = pack c.
 Proof. reflexivity. Qed.
 
+Lemma gen_round_storage b : G.round_storage_bytes_to_gib b = round_storage b.
+Proof. reflexivity. Qed.
+
 Lemma gen_storage_gcp s allow : G.requested_storage_bytes_to_actual_storage_gib_gcp s allow = storage_gib G.max_storage_gib_gcp s allow.
 Proof.
   unfold G.requested_storage_bytes_to_actual_storage_gib_gcp, G.gcp_requested_to_actual_storage_bytes, storage_gib, G.round_storage_bytes_to_gib.
